@@ -63,4 +63,11 @@ theorem parallax_lon_sid (sid ra lon x : ℝ) : capAngle360 ((sid - x) + (lon + 
 -- non-vacuity: a one-hour zone change on a Gregorian date
 example : C13.GregorianDate ⟨2023, 2, 6⟩ := by unfold C13.GregorianDate; decide
 
+/-- the hour angles of this property interpolate the right ascension with the deltas of the
+    unwrapped sequence (Thm C13 `ra_wrap_lift`, restated: this property depends on it) -/
+theorem ra_wrap_lift (P C N : ℝ) (hC0 : 0 ≤ C) (hC1 : C < 360)
+    (hp0 : 0 < C - P) (hp1 : C - P < 10) (hn0 : 0 < N - C) (hn1 : N - C < 10) :
+    raInterpDeltas (if P < 0 then P + 360 else P) C (if 360 ≤ N then N - 360 else N) = (N - P, N + P - 2 * C) :=
+  C13.ra_wrap_lift P C N hC0 hC1 hp0 hp1 hn0 hn1
+
 end IPT.C20
